@@ -144,6 +144,11 @@ impl Report {
         std::fs::create_dir_all(format!("{}/evidence", dir)).ok();
         let p = format!("{}/evidence/{}.json", dir, self.id);
         std::fs::write(&p, serde_json::to_string_pretty(&ev).unwrap()).expect("write evidence");
+        if self.tier == "thorough" {
+            // keep the deep run's record next to the quick one (evidence/<id>.json is rewritten by every run)
+            std::fs::create_dir_all(format!("{}/evidence-thorough", dir)).ok();
+            std::fs::write(format!("{}/evidence-thorough/{}.json", dir, self.id), serde_json::to_string_pretty(&ev).unwrap()).ok();
+        }
         println!(
             "{} tier={} states={} transitions={} traces={} outcomes={:?} wall={:.1}s exhaustive={} violations={}",
             self.id,
